@@ -20,7 +20,7 @@ fn in_domain(s: &str, allow_dash: bool) -> bool {
     !s.contains(['<', '>', '{', '}'])
         && (allow_dash || !s.contains('-'))
         && !s.starts_with('=')
-        && m::longest_digit_run(s) <= 18
+        && m::numbers_in_domain(s)
 }
 
 /// compare one verdict with the model, honouring the KF-1 region
@@ -67,6 +67,26 @@ fn verdicts_for(x: &str, y: &str, obs: &mut Obs, strict: bool) -> Result<(), Str
         judge("Pattern::matches", p.matches(&name), x, op, y, obs, strict)?;
         let d = Dewey::new(&pat).map_err(|e| format!("Dewey::new({:?}) failed: {}", pat, e))?;
         judge("Dewey::matches", d.matches(&name), x, op, y, obs, strict)?;
+    }
+    // the same bound on both sides of a range: the conjunction of the two single verdicts
+    for (o1, o2) in [(Op::Ge, Op::Le), (Op::Gt, Op::Le), (Op::Ge, Op::Lt), (Op::Gt, Op::Lt)] {
+        let pat = format!("b{}{}{}{}", o1.text(), y, o2.text(), y);
+        let p = Pattern::new(&pat).map_err(|e| format!("Pattern::new({:?}) failed: {}", pat, e))?;
+        let want = m::verdict(x, o1, y, Letters::Rank) && m::verdict(x, o2, y, Letters::Rank);
+        let ascii = m::verdict(x, o1, y, Letters::AsciiLower) && m::verdict(x, o2, y, Letters::AsciiLower);
+        let got = p.matches(&name);
+        obs.verdicts += 1;
+        if got == want {
+            continue;
+        }
+        if want != ascii && !strict {
+            obs.known_hits.push(KF1);
+            continue;
+        }
+        return Err(format!(
+            "Pattern::matches: '{}' on version '{}' = {}, but '{}' {} '{}' is {} and '{}' {} '{}' is {} (dewey order)",
+            pat, x, got, x, o1.text(), y, m::verdict(x, o1, y, Letters::Rank), x, o2.text(), y, m::verdict(x, o2, y, Letters::Rank)
+        ));
     }
     Ok(())
 }
@@ -261,7 +281,7 @@ pub fn property() -> Property {
                 "pairs",
                 "token-built correlated pairs, all operators, both directions, best_match",
                 pair_strategy,
-                |t| t.pick(200_000, 3_000_000),
+                |t| t.pick(150_000, 3_000_000),
                 check_pair,
             ),
             random_stream(
